@@ -248,7 +248,16 @@ def _run(case, obs, keep_re):
 
     def state_hook(new, old):
         obs.states.append((str(new), str(old), len(obs.hook)))
-        obs.state_meta.append({"handle": loop.count, "seg": seg["i"], "total": loop.total})
+        plog = getattr(obs, "plog", None)
+        obs.state_meta.append(
+            {
+                "handle": loop.count,
+                "seg": seg["i"],
+                "total": loop.total,
+                # had the top-level plan generator already finished (returned or raised) when the state changed?
+                "plan_done": bool(plog is not None and (plog.returned or plog.raised is not None)),
+            }
+        )
 
     RE.msg_hook = msg_hook
     RE.state_hook = state_hook
